@@ -57,7 +57,7 @@ Fixpoint dec_rev (fuel : nat) (n : N) : list N :=
   | O => []
   | S f => if n <? 10 then [48 + n] else (48 + n mod 10) :: dec_rev f (n / 10)
   end.
-Definition dec_of_N (n : N) : bytes := rev (dec_rev (S (N.size_nat n)) n).
+Definition dec_of_N (n : N) : bytes := frev (dec_rev (S (N.size_nat n)) n).
 Definition dec_of_Z (z : Z) : bytes :=
   match z with
   | Z0 => [48]
@@ -179,7 +179,7 @@ Definition ws_head (s : bytes) : nat :=
 Definition starts_ws (s : bytes) : bool := negb (Nat.eqb (ws_head s) 0).
 (* the last character is whitespace: match the patterns backwards (UTF-8 is self-synchronising) *)
 Definition ends_ws (s : bytes) : bool :=
-  match rev s with
+  match frev s with
   | c :: r =>
       if ((9 <=? c) && (c <=? 13)) || (c =? 32) then true
       else match c, r with
@@ -231,6 +231,11 @@ Definition text_f64 (o : xoracle) (x : f64) : res bytes :=
   else if f64_is_nan x then Ok (B "NAN") else ask (xo_show64 o x).
 Definition xw_f32 (o : xoracle) (x : f32) : res (list wevent) := t <- text_f32 o x ;; Ok (w_string t).
 Definition xw_f64 (o : xoracle) (x : f64) : res (list wevent) := t <- text_f64 o x ;; Ok (w_string t).
+(* write_characters(f32) / write_tag_characters(tag, f32): the `Display` text of the float itself, WITHOUT the
+   INF / -INF / NAN spellings of f32::write_xml (so an infinity is written `inf`, a NaN `NaN`) *)
+Definition xw_f32_display (o : xoracle) (x : f32) : res (list wevent) := t <- ask (xo_show32 o x) ;; Ok (w_string t).
+Definition xw_f32_display_tag (o : xoracle) (tag : string) (x : f32) : res (list wevent) :=
+  e <- xw_f32_display o x ;; Ok (w_elem (B tag) e).
 (* write_value_in_tag(&f32, tag) *)
 Definition xw_f32_tag (o : xoracle) (tag : string) (x : f32) : res (list wevent) :=
   e <- xw_f32 o x ;; Ok (w_elem (B tag) e).
@@ -246,13 +251,13 @@ Definition w_vec3 (o : xoracle) (v : vec3) : res (list wevent) :=
   concat_res [xw_f32_tag o "X" (vx v); xw_f32_tag o "Y" (vy v); xw_f32_tag o "Z" (vz v)].
 Definition w_vec2 (o : xoracle) (v : vec2) : res (list wevent) :=
   concat_res [xw_f32_tag o "X" (v2x v); xw_f32_tag o "Y" (v2y v)].
-(* cframe.rs: write_tag_array over X Y Z R00..R22 *)
+(* cframe.rs: write_tag_array over X Y Z R00..R22 (write_tag_characters: Display text) *)
 Definition w_cframe (o : xoracle) (c : cframe) : res (list wevent) :=
   let p := cf_pos c in let m := cf_rot c in
-  concat_res [xw_f32_tag o "X" (vx p); xw_f32_tag o "Y" (vy p); xw_f32_tag o "Z" (vz p);
-              xw_f32_tag o "R00" (vx (mx m)); xw_f32_tag o "R01" (vy (mx m)); xw_f32_tag o "R02" (vz (mx m));
-              xw_f32_tag o "R10" (vx (my m)); xw_f32_tag o "R11" (vy (my m)); xw_f32_tag o "R12" (vz (my m));
-              xw_f32_tag o "R20" (vx (mz m)); xw_f32_tag o "R21" (vy (mz m)); xw_f32_tag o "R22" (vz (mz m))].
+  concat_res [xw_f32_display_tag o "X" (vx p); xw_f32_display_tag o "Y" (vy p); xw_f32_display_tag o "Z" (vz p);
+              xw_f32_display_tag o "R00" (vx (mx m)); xw_f32_display_tag o "R01" (vy (mx m)); xw_f32_display_tag o "R02" (vz (mx m));
+              xw_f32_display_tag o "R10" (vx (my m)); xw_f32_display_tag o "R11" (vy (my m)); xw_f32_display_tag o "R12" (vz (my m));
+              xw_f32_display_tag o "R20" (vx (mz m)); xw_f32_display_tag o "R21" (vy (mz m)); xw_f32_display_tag o "R22" (vz (mz m))].
 
 (* font.rs write_content *)
 Definition w_content_tag (tag : string) (s : bytes) : list wevent :=
@@ -282,7 +287,7 @@ Definition write_xml (o : xoracle) (v : value) : option (bytes * res (list weven
       Some (B "ColorSequence",
             concat_res (List.map (fun kp : f32 * (f32 * f32 * f32) =>
               let '(t, (r, g, b)) := kp in
-              et <- xw_f32 o t ;; er <- xw_f32 o r ;; eg <- xw_f32 o g ;; eb <- xw_f32 o b ;;
+              et <- xw_f32_display o t ;; er <- xw_f32_display o r ;; eg <- xw_f32_display o g ;; eb <- xw_f32_display o b ;;
               Ok (et ++ sp :: er ++ sp :: eg ++ sp :: eb ++ sp :: w_string [48] ++ [sp])) kps))
   | VContent c =>
       match c with
@@ -311,12 +316,12 @@ Definition write_xml (o : xoracle) (v : value) : option (bytes * res (list weven
   | VInt32 z => Some (B "int", Ok (w_string (dec_of_Z z)))
   | VInt64 z => Some (B "int64", Ok (w_string (dec_of_Z z)))
   | VNumberRange lo hi =>
-      Some (B "NumberRange", a <- xw_f32 o lo ;; b <- xw_f32 o hi ;; Ok (a ++ sp :: b ++ [sp]))
+      Some (B "NumberRange", a <- xw_f32_display o lo ;; b <- xw_f32_display o hi ;; Ok (a ++ sp :: b ++ [sp]))
   | VNumberSequence kps =>
       Some (B "NumberSequence",
             concat_res (List.map (fun kp : f32 * f32 * f32 =>
               let '(t, x, e) := kp in
-              et <- xw_f32 o t ;; ex <- xw_f32 o x ;; ee <- xw_f32 o e ;;
+              et <- xw_f32_display o t ;; ex <- xw_f32_display o x ;; ee <- xw_f32_display o e ;;
               Ok (et ++ sp :: ex ++ sp :: ee ++ [sp])) kps))
   | VOptionalCFrame c =>
       Some (B "OptionalCoordinateFrame",
@@ -464,8 +469,8 @@ Definition r_cframe (o : xoracle) : xrd cframe :=
 (* `contents.split(' ').filter(|s| !s.is_empty())` *)
 Fixpoint split_sp_go (cur : bytes) (s : bytes) : list bytes :=
   match s with
-  | [] => match cur with [] => [] | _ => [rev cur] end
-  | c :: r => if c =? 32 then match cur with [] => split_sp_go [] r | _ => rev cur :: split_sp_go [] r end
+  | [] => match cur with [] => [] | _ => [frev cur] end
+  | c :: r => if c =? 32 then match cur with [] => split_sp_go [] r | _ => frev cur :: split_sp_go [] r end
               else split_sp_go (c :: cur) r
   end.
 Definition split_sp (s : bytes) : list bytes := split_sp_go [] s.
